@@ -43,6 +43,8 @@ var ab = []byte{'a', 'b'}
 
 // spaceSpec names a grammar space and the input length bound used with it.
 type spaceSpec struct {
+	// tmpl, when set, replaces sp: grammars come from a template space (sp is still set, for the description only)
+	tmpl   *gram.TemplateSpace
 	sp     *gram.Space
 	maxLen int
 	alpha  []byte
@@ -62,6 +64,10 @@ type spaceSpec struct {
 func (s spaceSpec) describe() string {
 	d := fmt.Sprintf("%s: alphabet=%s nonterminals=%d shared=%d total size %d..%d, inputs over %q up to length %d",
 		s.sp.Name, s.sp.Alpha.Name, s.sp.NNT, s.sp.NSh, s.sp.Min, s.sp.Max, string(s.alpha), s.maxLen)
+	if s.tmpl != nil {
+		d = fmt.Sprintf("%s: two mutually left-recursive nonterminals, N0 = Any of 1..%d and N1 = Any of 1..%d alternatives from the hidden-left-recursion templates {t, Nj, (seq Nj t), (seq eps Nj t), (seq (opt t) Nj t')} over %q, inputs up to length %d",
+			s.tmpl.Name, s.tmpl.MaxAlts, s.tmpl.MaxAlts1, string(s.tmpl.Letters), s.maxLen)
+	}
 	if s.mutualOnly {
 		d += ", only grammars whose two nonterminals lie on a common same-position cycle"
 	}
@@ -71,12 +77,27 @@ func (s spaceSpec) describe() string {
 	return d
 }
 
+// templateSpec builds the spec of a hidden-left-recursion template space.
+func templateSpec(letters string, alts0, alts1, maxLen int) spaceSpec {
+	name := fmt.Sprintf("hidden-left-recursion templates %s/%d/%d", letters, alts0, alts1)
+	ts := &gram.TemplateSpace{Name: name, Letters: []byte(letters), MaxAlts: alts0, MaxAlts1: alts1}
+	return spaceSpec{tmpl: ts, sp: &gram.Space{Name: name, Alpha: gram.Core, NNT: 2, Min: 99, Max: 99}, maxLen: maxLen, alpha: []byte(letters)}
+}
+
 // specsFromEnv lets a targeted deep run override the spaces:
 // VERIF_SPACES="full,2,7,8,3;core,1,8,8,4" = alphabet,nonterminals,min,max,input length.
 func specsFromEnv(def []spaceSpec) []spaceSpec {
 	v := os.Getenv("VERIF_SPACES")
 	if v == "" {
 		return def
+	}
+	if strings.HasPrefix(v, "template,") { // template,<letters>,<maxAlts0>,<maxAlts1>,<len>
+		f := strings.Split(v, ",")
+		a0, _ := strconv.Atoi(f[2])
+		a1, _ := strconv.Atoi(f[3])
+		l, _ := strconv.Atoi(f[4])
+		ts := &gram.TemplateSpace{Name: "env-template", Letters: []byte(f[1]), MaxAlts: a0, MaxAlts1: a1}
+		return []spaceSpec{{tmpl: ts, sp: &gram.Space{Name: "env-template", Alpha: gram.Core, NNT: 2, Min: 99, Max: 99}, maxLen: l, alpha: []byte(f[1])}}
 	}
 	var out []spaceSpec
 	for _, part := range strings.Split(v, ";") {
@@ -234,7 +255,11 @@ func eachGrammar(env *explore.Env, res *explore.Result, specs []spaceSpec, seeds
 	}
 	for _, s := range specs {
 		inputs := gram.Inputs(s.alpha, s.maxLen)
-		s.sp.Each(func(idx int64, g *gram.Grammar) {
+		each := s.sp.Each
+		if s.tmpl != nil {
+			each = s.tmpl.Each
+		}
+		each(func(idx int64, g *gram.Grammar) {
 			if !env.Mine(idx) {
 				return
 			}
